@@ -102,7 +102,42 @@ class C16:
                 if ce[0] == "const":
                     mentions = False
             trim_ok = mentions
-        if trim_ok and vk.get("dims") == name:
+            if trim_ok:
+                # the test as a function of (last, stop, step): it must fire when the last element is the spurious one (within
+                # rounding drift of the stop value -- the drift grows with start and the number of steps, up to a good fraction
+                # of a step) and must not fire when it is the legitimate last element one step below stop
+                verdicts = []
+                for S, stv in ((1.0, 0.1), (3600.5, 1 / 48000), (600.0, 1 / 192000), (22050.0, 10.0)):
+                    for d, want in ((0.0, True), (-1e-6, True), (1e-12, True), (1e-6, True), (1e-3, True), (1e-2, True), (0.1, True),
+                                    (0.9, False), (1.0, False), (1.1, False)):
+                        env_ = {last: S - d * stv, stop: S, ("param", "step"): stv}
+                        if a_step is not None:
+                            env_[a_step] = stv
+                        for q in (("cmp", "is", step, NONE), ("cmp", "is", size, NONE)):
+                            env_[q] = q[2] == size
+                        for q in (("cmp", "isnot", step, NONE), ("cmp", "isnot", size, NONE)):
+                            env_[q] = q[2] == step
+                        got = peval(c, env_)
+                        if got[0] != "const":
+                            verdicts = None
+                            break
+                        if bool(got[1]) != want:
+                            verdicts.append((S, stv, d, bool(got[1])))
+                    if verdicts is None:
+                        break
+                if verdicts:
+                    S, stv, d, gotv = verdicts[0]
+                    ctx.bad("R16.1", self.file, "create_range_dim", f"trim iff {show(c)[:70]}",
+                            f"the trailing-element test `{show(c)[:90]}` {'fires' if gotv else 'does not fire'} when the last generated "
+                            f"coordinate is {d} step(s) below stop (stop={S}, step={stv:.6g}): "
+                            + ("the legitimate last coordinate is removed" if gotv else
+                               "the extra coordinate that np.arange produces when rounding pushes start + n*step just below stop survives "
+                               "(its distance from stop grows with start and the number of steps): n + 1 coordinates instead of n"),
+                            s.node.lineno, witness={"stop": S, "step": stv, "last": S - d * stv, "trimmed": gotv})
+                    trim_ok = None
+        if trim_ok is None:
+            pass
+        elif trim_ok and vk.get("dims") == name:
             ctx.ok("R16.1", site, "trailing element at/after the stop value trimmed; dims=name")
         else:
             ctx.bad("R16.1", self.file, "create_range_dim", f"data={show(data)[:70] if data else '-'}",
